@@ -221,6 +221,9 @@ func containsAny(msg string, phrases []string) bool {
 func classify(rec any, stack string) (r Res) {
 	o := ev.Classify(rec)
 	r.Kind, r.Class, r.Msg = o.Kind, o.Class, clip(o.Msg, 300)
+	if r.Kind == ev.Partial {
+		return // the reader's "more input needed"
+	}
 	if r.Kind == ev.Fault {
 		r.Kind = ev.Condition // decided below, by this check's own rules
 	}
